@@ -164,6 +164,8 @@ def check_map_encoder(ctx, ty, emit, extras_field, rules=("R-1", "R-2", "R-5", "
             hit = (is_call(tt, SET_CONTAINS) and val is True) or (is_call(tt, SET_INSERT) and val is False)
         if name != "DuplicateMapKey" or not hit:
             refusals.append("%s at %s" % (name, f.where(o["bb"])))
+    if me.sets and not me.set_starts_empty:
+        refusals.append("the duplicate set does not start empty (labels are refused that were never emitted)")
     ctx.ob(R5, "refuses-only-duplicates:%s" % ty, not refusals,
            "%s::to_cbor_value raises no error of its own except DuplicateMapKey on a hit in its duplicate set" % ty, where=f.span,
            detail={"other_refusals": refusals})
